@@ -20,13 +20,17 @@ Oracle: differential, model value vs package value, per query.  Where the model 
 raises, the statement says nothing and nothing is asserted.
 
 Signatures: a disagreement is attributed to the lowest-ranked disagreeing cells (for an
-exception in the package: the innermost exported method on the traceback).  If the source
-of that formula contains one of the syntactic shapes known to be mistranslated on the
-unchanged tree (`patterns`, witnesses in findings/c15_witnesses.py) the signature names the
-shape; otherwise it is "<outcome> | <instance kind>" and, once shrunk, the grammar forms left
-in the minimal formula.  The generator enables each known trigger per model with a small
-probability (c15_gen.Gen: `risky`); MXV_C15_RISKY=0 in the environment of ./check switches
-them off (mutation testing while those findings are undecided).
+exception in the package: the innermost exported method on the traceback).  The signature
+is "<outcome> | <instance kind>" and, once shrunk, the grammar forms left in the minimal
+formula.  Four mechanisms are listed in known_findings.json (K_METHOD, K_CLASSATTR, K_TRY,
+K_SPACE; witnesses in findings/c15_witnesses.py); a violation gets one of those signatures
+only when the exception observed names exactly what that mechanism mistranslates in that
+formula (`known_shape`, `known_space_shape`, `known_export_failure`), so nothing else is
+absorbed.  Each has a directed probe and a per-model low-probability switch in the
+generator (c15_gen.Gen: `risky`).  The six shapes repaired in /repo are ordinary grammar
+forms plus directed regression probes.  Development switches in the environment of ./check:
+MXV_C15_RISKY=0 (no known shapes, no known probes), MXV_C15_ONLY=a,b (only these repaired
+shapes).
 """
 import hashlib
 import json
@@ -52,8 +56,10 @@ RULE = ("seeded random models of the documented export subset built from an op l
         "non-trivial = package executed and >= 20 model-valued comparisons incl. >= 1 in a derived, Item or "
         "dynamic child space; distinct = distinct hash of the op list (all formula sources and structure)")
 ASSUMPTIONS = [
-    "the export subset is the one documented in export_model's docstring: parameter formulas return None; "
-    "object-valued references inside parametrised space trees are absolute or point outside the tree; no IOSpec",
+    "the export subset is the one documented in export_model's docstring: object-valued references inside "
+    "parametrised space trees are absolute or point outside the tree; no IOSpec; no reliance on coercion of "
+    "parameterless cells.  Parameter formulas returning refs/base are not excluded by the docstring: they are "
+    "probed (directed + low weight) and listed as a known finding; all other generated parameter formulas return None",
     "the model side is the reference (tied to the pure evaluator by C01); where the model raises nothing is asserted",
     "values are compared through a type-tagged canonical form (mxv/c15_child.py: canon) computed on both sides",
     "child interpreter: same /venv python, PYTHONHASHSEED=0, PYTHONPATH removed, modelx blocked by a meta-path finder",
@@ -124,6 +130,7 @@ DIRECTED = [
 
 # regression probes of the translation defects found by this check and repaired in /repo
 # (findings/c15_witnesses.py): always run
+REGRESSION = ["inf", "kwglobal", "paren", "comp_target", "dunder", "clash"]     # c15_gen.Gen.on keys, same order
 DIRECTED += [
     [_sp("A"), _r("A", "r", {"inf": 1}), _r("A", "s", {"inf": -1}), _r("A", "v", {"inf": 0}),
      _c("A", "c0", "def c0(x):\n    return (x < r, x > s, v != v)")],
@@ -161,10 +168,15 @@ def gen_cases(tier, seed):
     # MXV_C15_RISKY=0 switches off the forms that trigger the translation defects already found on the
     # unchanged tree (used when testing the check against mutants while those defects are undecided)
     risky = os.environ.get("MXV_C15_RISKY")
+    # MXV_C15_ONLY=paren,inf (development): only these repaired shapes are generated / probed
+    only = os.environ.get("MXV_C15_ONLY")
+    only = [k for k in only.split(",") if k] if only is not None else None
     for i in range(n):
         feat = {}
         if risky is not None:
             feat["risky"] = float(risky)
+        if only is not None:
+            feat["only_on"] = only
         if i % 7 == 3:
             feat["itemspaces"] = False
         if i % 5 == 4:
@@ -174,7 +186,10 @@ def gen_cases(tier, seed):
         if i % 4 == 1:
             feat["uncached"] = 0.45
         yield {"id": "p%d" % i, "seed": env.derive_seed(seed, ID, i), "feat": feat, "twin": i % 3 == 0}
+    nreg = len(DIRECTED) - len(REGRESSION)
     for j, ops in enumerate(DIRECTED):
+        if only is not None and j >= nreg and REGRESSION[j - nreg] not in only:
+            continue
         yield {"id": "d%d" % j, "seed": env.derive_seed(seed, ID, "d", j), "ops": ops, "twin": True}
     if risky is None or float(risky) > 0:
         for j, ops in enumerate(KNOWN_SHAPES):
